@@ -42,40 +42,91 @@ func rulesC13(c *Ctx) {
 
 	// ---- R2 LockData hands over a held write lock ------------------------------
 	n2 := 0
-	newLocker := c.P.Func(dataPkg, "", "newDataLocker")
+	// the locker's unlock slot: its func-typed field
+	unlockField := ""
+	if lst, ok := lk.Underlying().(*types.Struct); ok {
+		for i := 0; i < lst.NumFields(); i++ {
+			if _, isFn := lst.Field(i).Type().Underlying().(*types.Signature); isFn {
+				unlockField = lst.Field(i).Name()
+			}
+		}
+	}
+	storesUnlock := func(g *ssa.Function, v ssa.Value) bool {
+		// g stores v into the locker's unlock slot
+		found := false
+		eachInstr(g, func(_ *ssa.BasicBlock, _ int, in ssa.Instruction) {
+			if st, ok := in.(*ssa.Store); ok {
+				if fa, ok := st.Addr.(*ssa.FieldAddr); ok && strings.HasSuffix(fieldName(fa), ".DataLocker."+unlockField) {
+					if unwrapChange(resolve(st.Val)) == v || resolve(st.Val) == v {
+						found = true
+					}
+				}
+			}
+		})
+		return found
+	}
 	for _, T := range []*types.Named{ds, ch, lk} {
 		f := c.P.Func(dataPkg, T.Obj().Name(), "LockData")
 		con := "datascope.(" + T.Obj().Name() + ").LockData"
-		_, mi := fieldIndex(T, "mu")
-		if f == nil || mi < 0 || newLocker == nil {
+		if f == nil || unlockField == "" {
 			c.Bad("R2", con, 0, "anchor not found")
 			continue
 		}
 		n2++
-		want := fmt.Sprintf("param:%s.&f%d", f.Params[0].Name(), mi)
 		sum := le.summary(f, 0)
-		mode, held := sum.HeldAtExit[want]
-		okHeld := held && mode == 'W'
-		// the unlock handed to the locker
-		okCB := false
-		cbWhy := "no call of newDataLocker found"
-		for _, ci := range CallsTo(f, qualName(newLocker)) {
-			cb := ci.Arg(1)
-			if ct, ok := cb.(*ssa.ChangeType); ok {
-				cb = ct.X
-			}
-			cbWhy = "the unlock callback is not the Unlock method value of the scope's own mutex"
-			if mc, ok := cb.(*ssa.MakeClosure); ok {
-				if fn, ok := mc.Fn.(*ssa.Function); ok && fn.Object() != nil && len(mc.Bindings) == 1 {
-					q := qualObj(fn.Object().(*types.Func))
-					if (q == "sync.(RWMutex).Unlock" || q == "sync.(Mutex).Unlock") && keyP(mc.Bindings[0]) == want {
-						okCB = true
-					} else if strings.HasSuffix(q, "RUnlock") {
-						cbWhy = "the callback releases a READ lock"
+		// the mutex of the receiver held in W mode at every return
+		want := ""
+		tst := T.Underlying().(*types.Struct)
+		for k, m := range sum.HeldAtExit {
+			for i := 0; i < tst.NumFields(); i++ {
+				ts := tst.Field(i).Type().String()
+				if (ts == "sync.Mutex" || ts == "sync.RWMutex") && k == fmt.Sprintf("param:%s.&f%d", f.Params[0].Name(), i) {
+					if m == 'W' {
+						want = k
 					}
 				}
 			}
 		}
+		okHeld := want != ""
+		// the unlock handed to the locker: a bound Unlock of that very mutex, stored into the locker
+		okCB := false
+		cbWhy := "no unlock callback is handed to the locker"
+		eachInstr(f, func(_ *ssa.BasicBlock, _ int, in ssa.Instruction) {
+			mc, ok := in.(*ssa.MakeClosure)
+			if !ok {
+				return
+			}
+			fn, ok := mc.Fn.(*ssa.Function)
+			if !ok || fn.Object() == nil || len(mc.Bindings) != 1 {
+				return
+			}
+			q := qualObj(fn.Object().(*types.Func))
+			if !strings.HasPrefix(q, "sync.(") {
+				return
+			}
+			// where does it go?
+			reaches := storesUnlock(f, mc)
+			for _, ci := range Calls(f) {
+				if ci.Static != nil && ci.Static.Pkg == f.Pkg {
+					for ai, a := range ci.Common.Args {
+						if unwrapChange(resolve(a)) == ssa.Value(mc) && ai < len(ci.Static.Params) && storesUnlock(ci.Static, ci.Static.Params[ai]) {
+							reaches = true
+						}
+					}
+				}
+			}
+			if !reaches {
+				return
+			}
+			switch {
+			case (q == "sync.(RWMutex).Unlock" || q == "sync.(Mutex).Unlock") && keyP(mc.Bindings[0]) == want:
+				okCB = true
+			case strings.HasSuffix(q, "RUnlock"):
+				cbWhy = "the callback releases a READ lock"
+			default:
+				cbWhy = "the unlock callback is not the Unlock method value of the scope's own mutex"
+			}
+		})
 		why := ""
 		if !okHeld {
 			why = "LockData does not return holding the scope's mutex in write mode on every path (held: " + fmtLockset(sum.HeldAtExit) + ")"
@@ -98,12 +149,12 @@ func rulesC13(c *Ctx) {
 				return false
 			}
 			n, _ := fieldLoadName(call.Call.Value)
-			return n == "unlockCB"
+			return n != "" && n == unlockField
 		}
 		exits := RunPaths(commit, nil, 0, func(st int, in ssa.Instruction, deferred bool) int {
 			hit := isUnlockCall(in)
 			if d, ok := in.(*ssa.Defer); ok && deferred {
-				if n, _ := fieldLoadName(d.Call.Value); n == "unlockCB" {
+				if n, _ := fieldLoadName(d.Call.Value); n != "" && n == unlockField {
 					hit = true
 				}
 			}
